@@ -160,7 +160,26 @@ def cases(ctx, model_ok, tmp):
                 src.registry.associate("tg", [rf])
                 tagged_slots.add(slot)
         cal_free = {k: 0 for k in range(1, 7)}
+        epoch_mode = rng.random() < 0.5
+        if epoch_mode:
+            # make sure there are calibration datasets for detectors 1..4 (two per epoch)
+            for k in (1, 2, 3, 4):
+                if not any(t_ == "tc" and k_ == k for t_, k_, _ in used):
+                    used.add(("tc", k, "r1"))
+                    refs.append(src.put({"t": "tc", "k": k, "run": "r1", "n": len(refs)}, tc, instrument="I", detector=k, run="r1"))
+            # calibrations certified in two epochs shared by several datasets, interleaved over the detectors (odd detectors in
+            # epoch A, even ones in epoch B): several validity ranges with one and the same timespan, not adjacent in any ref order
+            ctx.count("source:calibration-epochs")
+            seen_k = set()
+            for rf in refs:
+                k = rf.dataId["detector"]
+                if rf.datasetType.name == "tc" and k not in seen_k:
+                    seen_k.add(k)
+                    b0, e0 = (0, 3) if k % 2 else (3, 7)
+                    src.registry.certify("cal", [rf], Timespan(day(b0), day(e0)))
         for rf in refs:
+            if epoch_mode:
+                break
             if rf.datasetType.name == "tc" and rng.random() < 0.7:
                 k = rf.dataId["detector"]
                 b0 = cal_free[k] + rng.randint(0, 2)
@@ -177,6 +196,11 @@ def cases(ctx, model_ok, tmp):
             how = rng.choice(["import", "import", "transfer"])
             sel = [rf for rf in refs if rng.random() < 0.6] or refs[:1]
             sel_colls = [c for c in ("tg", "cal", "ch", "ch2") if rng.random() < 0.6]
+            if epoch_mode and ci % 2 == 0:
+                # the whole calibration collection with everything certified in it
+                sel = list(dict.fromkeys(sel + [rf for rf in refs if rf.datasetType.name == "tc"]))
+                if "cal" not in sel_colls:
+                    sel_colls.append("cal")
             if kind in ("conflict-chain", "conflict-dim"):
                 how = "import"  # the recorded witnesses of C19-a / C19-b always run
                 if kind == "conflict-chain" and "ch" not in sel_colls:
@@ -332,6 +356,16 @@ def cases(ctx, model_ok, tmp):
                              + (f"; e.g. dataset contents now {[v[3][:30] for v in st1['ds'].values() if 'unreadable' in v[3]][:2]}" if "ds" in changed else ""),
                              "repeated-import-deletes-artifact" if (attempt == 2 and how == "import" and changed == ["ds"] and results[0] == "ok") else f"refused-changes:{how}:{kind}:{attempt}",
                              {"kind": "c19", **desc, "attempt": attempt, "changed": changed})
+                    # refused, not merged: none of the selection's datasets, memberships or validity ranges may have arrived
+                    # (a partial merge is a merge); registrations of dataset types / collections are the documented exception
+                    arrived = [k for k in ("ds", "tags") if any(x not in st0[k] for x in st1[k])]
+                    if st1["calibs"] - st0["calibs"]:
+                        arrived.append("calibs")
+                    if arrived and not changed:
+                        new_ds = [x for x in st1["ds"] if x not in st0["ds"]]
+                        viol(f"{how} #{attempt} into a target of kind {kind} was refused ({err}) but part of the selection arrived all the same: "
+                             f"{arrived}" + (f" ({len(new_ds)} new datasets, e.g. content {[st1['ds'][x][3][:40] for x in new_ds][:1]})" if new_ds else ""),
+                             f"refused-but-merged:{how}:{kind}:{attempt}", {"kind": "c19", **desc, "attempt": attempt, "arrived": arrived})
                     if attempt == 1 and expect_refusal is None and kind in ("empty",):
                         viol(f"{how} into an empty target was refused: {err}", f"refused-empty:{how}", {"kind": "c19", **desc})
                     continue
@@ -397,6 +431,7 @@ def cases(ctx, model_ok, tmp):
             for tag in ("x", "pre"):
                 shutil.rmtree(exdir + tag, ignore_errors=True)
     quantum_sources(ctx, tmp, fresh_target, viol)
+    visit_transfers(ctx, tmp, fresh_target, viol)
     if model_ok:
         got = core.driver(req)
         nd = 0
@@ -407,6 +442,69 @@ def cases(ctx, model_ok, tmp):
                     ctx.broken.append(f"correspondence: `{line[:120]}` model={m[:300]} implementation={i[:300]}")
         ctx.extra["correspondence_lines"] = len(req)
         ctx.extra["correspondence_disagreements"] = nd
+
+
+def visit_transfers(ctx, tmp, fresh_target, viol):
+    """transfer_from(transfer_dimensions=True) of datasets of several visits: the target gets the dimension records the selection
+    needs — also those of the membership tables the visits populate (visit_definition, visit_system_membership) and of the
+    exposures these relate — exactly as the source has them, for every selected visit."""
+    from lsst.daf.butler import DatasetType
+
+    rng = ctx.rng
+    src = fresh_target("vsrc")
+    reg = src.registry
+    reg.insertDimensionData("instrument", {"name": "I", "detector_max": 4, "class_name": "c.C"})
+    reg.insertDimensionData("physical_filter", {"instrument": "I", "name": "f", "band": "r"})
+    reg.insertDimensionData("day_obs", {"instrument": "I", "id": 20250101})
+    reg.insertDimensionData("group", {"instrument": "I", "name": "g"})
+    reg.insertDimensionData("visit_system", {"instrument": "I", "id": 0, "name": "one-to-one"}, {"instrument": "I", "id": 1, "name": "by-group"})
+    VIS = [11, 12, 13, 14]
+    for v in VIS:
+        for e in (v * 10, v * 10 + 1):
+            reg.insertDimensionData("exposure", {"instrument": "I", "id": e, "obs_id": f"o{e}", "physical_filter": "f", "day_obs": 20250101, "group": "g", "seq_num": e})
+        reg.insertDimensionData("visit", {"instrument": "I", "id": v, "name": f"v{v}", "physical_filter": "f", "day_obs": 20250101, "seq_num": v})
+        for e in (v * 10, v * 10 + 1):
+            reg.insertDimensionData("visit_definition", {"instrument": "I", "visit": v, "exposure": e})
+        reg.insertDimensionData("visit_system_membership", {"instrument": "I", "visit": v, "visit_system": v % 2})
+    tv = DatasetType("tv", {"instrument", "visit"}, "StructuredDataDict", universe=src.dimensions)
+    reg.registerDatasetType(tv)
+    reg.registerRun("rv")
+    refs = {v: src.put({"v": v}, tv, instrument="I", visit=v, run="rv") for v in VIS}
+
+    def records(b, visits):
+        out = {}
+        for el, key in (("visit", "id"), ("visit_definition", "visit"), ("visit_system_membership", "visit")):
+            out[el] = sorted(repr(sorted(r_.toDict().items(), key=str)) for r_ in b.registry.queryDimensionRecords(el) if getattr(r_, key) in visits)
+        exps = {e for v in visits for e in (v * 10, v * 10 + 1)}
+        out["exposure"] = sorted(repr(sorted(r_.toDict().items(), key=str)) for r_ in b.registry.queryDimensionRecords("exposure") if r_.id in exps)
+        return out
+
+    for n_case in range(3 if ctx.quick() else 12):
+        sel = sorted(rng.sample(VIS, rng.choice([2, 3, 3, 4])))
+        if rng.random() < 0.5:
+            sel = sel[::-1]
+        dst = fresh_target(f"vdst{n_case}")
+        ctx.evaluations += 1
+        ctx.count(f"visit-transfer:{len(sel)}-visits")
+        try:
+            dst.transfer_from(src, [refs[v] for v in sel], transfer="copy", register_dataset_types=True, transfer_dimensions=True)
+        except Exception as e:
+            viol(f"transfer_from(transfer_dimensions=True) of the datasets of visits {sel} raised {type(e).__name__}: {str(e)[:100]}", "visit-transfer-raise",
+                 {"kind": "visit-transfer", "visits": sel})
+            continue
+        want, got = records(src, set(sel)), records(dst, set(sel))
+        problems = [f"{el}: the target has {len(got[el])} of the source's {len(want[el])} records" + ("" if len(got[el]) != len(want[el]) else " (different content)")
+                    for el in want if got[el] != want[el]]
+        for v in sel:
+            try:
+                if dst.get(refs[v]) != {"v": v}:
+                    problems.append(f"dataset of visit {v} reads back changed")
+            except Exception as e:
+                problems.append(f"dataset of visit {v} unreadable ({type(e).__name__})")
+        if problems:
+            viol(f"transfer_from(transfer_dimensions=True) of the datasets of visits {sel}: " + "; ".join(problems), f"visit-transfer:{sel}",
+                 {"kind": "visit-transfer", "visits": sel, "problems": problems})
+        ctx.nontrivial.add(("visit-transfer", tuple(sel)))
 
 
 def quantum_sources(ctx, tmp, fresh_target, viol):
